@@ -2,7 +2,7 @@
    its boot states, and the specifications the oracles evaluate on the implementation's own results
    (Spec.v: abs, lower_invb, spec_put_enabled, accounting; Lower.v: recover, stats).
    ExtrOcamlBasic only; N, positive, nat stay Coq's inductives. *)
-From LLF Require Import Base Row Bitfield Lower Spec LowerMachine.
+From LLF Require Import AccessBoundsDef Base Row Bitfield Lower Spec LowerMachine.
 Require Import ExtrOcamlBasic.
 Extraction Language OCaml.
 Set Extraction KeepSingleton.
@@ -10,4 +10,6 @@ Extraction "model.ml"
   mstep boot lower_of free_all reserve_all alloc_all_held held_ok panicked
   lower_recover lower_stats
   abs lower_invb spec_put_enabled all_alloc all_free exact_free free_huge_count free_tree_count
+  (* C18: the index / lane predicate evaluated on the accesses of the compiled code *)
+  row_idx_okb ent_idx_okb
   popcount.
